@@ -31,15 +31,16 @@ import (
 // OEM_STRING per buffer format (format byte, optional LE16 length, bytes, optional NUL).
 
 type cmdField struct {
-	Name    string
-	Section int    // 0 parameters, 1 data
-	Enc     string // spec expression (sequence) of the LE / canonical encoding
-	EncBE   string // big-endian alternative for multi-byte integers ("" if none)
-	Width   string // Go expression of the encoded width
-	ConstW  int    // >= 0 when constant
-	Unsup   string // reason when the field type is outside the table
-	Keep    string // expression asserting the field is unchanged
-	Req     string // extra precondition
+	Name     string
+	Section  int    // 0 parameters, 1 data
+	Enc      string // spec expression (sequence) of the LE / canonical encoding
+	EncBE    string // big-endian alternative for multi-byte integers ("" if none)
+	Width    string // Go expression of the encoded width
+	ConstW   int    // >= 0 when constant
+	Unsup    string // reason when the field type is outside the table
+	Keep     string // expression asserting the field is unchanged
+	Req      string // extra precondition
+	IsString bool   // SMB_STRING / OEM_STRING field
 }
 
 type CmdSchema struct {
@@ -381,6 +382,7 @@ func bufferFormats(pkg *packages.Package, tname string) map[string]int {
 }
 
 func fillStringEnc(f *cmdField, k int) {
+	f.IsString = true
 	b := "c." + f.Name + ".Buffer"
 	n := "len(" + b + ")"
 	f.Req = n + " <= 65535"
@@ -588,6 +590,12 @@ func (sc *CmdSchema) MarshalContractText() string {
 				fmt.Fprintf(&sb, "//@   ensures [C05:byte-order:%s] eq(sub(result0, %s, %s), %s)\n", f.Name, off, hi, f.Enc)
 			} else {
 				fmt.Fprintf(&sb, "//@   ensures [C04,C05:slot:%s] eq(sub(result0, %s, %s), %s)\n", f.Name, off, hi, f.Enc)
+			}
+			// MS-CIFS 2.2.1.1.4 / per-command definitions: file and directory names are SMB_STRINGs of
+			// buffer format 0x04 (format 0x02 is reserved to the dialect strings of SMB_COM_NEGOTIATE); the
+			// format byte the schema itself uses above is read from the code, so it is pinned separately
+			if f.IsString && (strings.HasSuffix(f.Name, "FileName") || strings.HasSuffix(f.Name, "DirectoryName")) {
+				fmt.Fprintf(&sb, "//@   ensures [C05:format-byte:%s] result0[%s] == 4\n", f.Name, off)
 			}
 			off = hi
 		}
